@@ -147,7 +147,8 @@ class P1Model:
             raise Undecided("ModeDReader.read is not `prologue; one loop over the buffered lines; epilogue`")
         self.loop, conts, leaving, _ = it
         self.paths = [x for x in (self._classify(p) for p in conts + leaving) if x is not None]
-        if self.paths and not any("pop" in pp.post.buf_calls for pp in self.paths):
+        lp_ = getattr(self, "loop", None)
+        if isinstance(lp_, ast.For) and any(isinstance(n_, ast.Attribute) and n_.attr == self.buffer for n_ in ast.walk(lp_.iter)):
             # the step model is "one line popped from the input buffer per iteration": a loop driven in another way (a generator of lines, a split) is outside it
             raise Undecided("the per-line loop of ModeDReader.read does not take its lines from a pop operation of the input buffer (the step model does not apply)")
 
